@@ -156,11 +156,11 @@ type c16Case struct {
 }
 
 type c16Env struct {
-	s       *wire.Session
-	uri     string
-	base    string
-	conf    c16Config
-	layout  string
+	s      *wire.Session
+	uri    string
+	base   string
+	conf   c16Config
+	layout string
 }
 
 func c16Setup(c *core.Ctx, layout string, conf c16Config, idx int) *c16Env {
